@@ -37,8 +37,9 @@ def panic_key(err):
     return "panic@%s:%s:%s" % (m.group(1), m.group(2), cls)
 
 
-def parse_diags(text):
-    """stderr of dora compile -> [(level, message, line, col, underline length or None)]"""
+def parse_diags(text, fname=None):
+    """stderr of dora compile -> [(level, message, line, col, underline length or None)]; diagnostics located in another file
+    (the standard library) get line 0"""
     lines = text.split("\n")
     out = []
     i = 0
@@ -46,8 +47,9 @@ def parse_diags(text):
     while i < n:
         m = re.match(r"(error|warning): (.*)$", lines[i])
         if m and i + 1 < n and lines[i + 1].startswith("--> "):
-            loc = re.match(r"--> .*:(\d+):(\d+)$", lines[i + 1])
+            loc = re.match(r"--> (.*):(\d+):(\d+)$", lines[i + 1])
             if loc:
+                other = fname is not None and os.path.basename(loc.group(1)) != fname
                 length = None
                 j = i + 2
                 while j < n and j < i + 12:
@@ -57,7 +59,8 @@ def parse_diags(text):
                     if not lines[j].startswith(" |"):
                         break
                     j += 1
-                out.append((m.group(1), m.group(2), int(loc.group(1)), int(loc.group(2)), length))
+                out.append((m.group(1), m.group(2) + (" [in %s]" % loc.group(1) if other else ""), 0 if other else int(loc.group(2)),
+                            int(loc.group(3)), length))
                 i = j + 1 if length is not None else i + 2
                 continue
         i += 1
@@ -292,7 +295,7 @@ def run_layout(dora, path, lay, res, depth_left=6):
     if o.cls != "ok" and o.cls != "fatal":
         res.inconc.append("dora compile ended with %s: %s" % (o.key(), err[:200]))
         return
-    diags = parse_diags(err)
+    diags = parse_diags(err, os.path.basename(path))
     nerr = sum(1 for d in diags if d[0] == "error")
     if (o.status == 0) != (nerr == 0):
         res.inconc.append("exit status %s with %d parsed errors: %s" % (o.status, nerr, err[-300:]))
